@@ -65,6 +65,10 @@ claims = {
    text="Schedule exploration in a -race build: ~2200 (quick) / ~8000 (thorough) scenarios - every (thorough) or a quarter plus all self pairs (quick) of the unordered pairs of 118 command templates, one per handler, on colliding keys; connection set-up / tear-down, the saver (dataStoreSet.save on an in-memory file system) against every template; EXEC with a queue and a blocked BLPOP against every second template; CLIENT UNBLOCK / KILL / LIST against blocked clients; SELECT / FLUSHALL / DBSIZE - each explored over all thread schedules with at most 1 (quick) / 2 (thorough) preemptions. The scheduler's hand-offs are hidden from the race detector (RaceDisable around the hand-off, bookkeeping in go:norace functions) while every shim primitive reports the program's own synchronisation (lock = acquire, unlock = release, channel send -> receive, atomics), so the detector judges the emulator's happens-before relation on exactly the schedule the explorer chose: both lock orders of every pair are covered, which a free-running stress test only meets by luck.",
    note="Trusted: the Go race detector; the RaceDisable / RaceAcquire / RaceRelease annotations of the shims. Only reports whose both accesses lie in emulator code count (not inside shims / harness, not while a thread is being torn down at the end of an execution). Socket-level connection goroutines are covered by the C20 scenarios, which also run in this build in the thorough tier.",
    tech="stateless schedule enumeration with preemption bounding on the real code; per-schedule verdict by the Go race detector (happens-before)"),
+ 'C01': dict(engine='wire', cat='exploration', ref='DESIGN.md §2.5, §3 C01',
+   text="Exhaustive in bounds on the real socket path (clientCxn state machine, incremental re-parse, serializer) over an in-memory connection whose reads return exactly the segments the harness wrote: 125 pipelines of 1-5 commands (ECHO, SET/GET, APPEND, RPUSH/LRANGE, HSET/HGETALL, SADD/SMEMBERS, LCS, unknown commands, wrong arity, errors quoting client input, MULTI/EXEC, HELLO 3, INFO and CLIENT LIST under RESP2) with argument byte strings empty, CR LF, LF, NUL, non-UTF-8, frame look-alikes, and 8190..16384-byte payloads around the 8192-byte read buffer; each sent unsplit, byte by byte, with EVERY single cut and EVERY pair of cuts (long payloads: every cut within 4 bytes of a frame boundary, the bulk header or a multiple of 8192). Oracle: the reply stream parses with a strict RESP parser into exactly one value per command, equals the reference model's replies (stored bytes read back identical), is identical for every segmentation, no reply appears before its command is complete, a second connection is still served.",
+   note="Trusted: the strict RESP parser of the harness, the in-memory connection (a Read returns at most one written segment), the reference model for the expected replies. The time between two segments needs no enumeration: the read path has no timer, the server only waits in Read. Three or more cuts and pipelines outside the corpus are not covered.",
+   tech="exhaustive enumeration of request-stream segmentations (all 1- and 2-cut placements) on the real socket code under the controlled scheduler"),
 }
 pending_reason = "check not built yet (work in progress in this session; see DESIGN.md build order)"
 
@@ -96,6 +100,7 @@ manifest = {
  "engines": [
    {"name": "explore", "path": "checks/mc/explore.go", "serves_properties": ["C08", "C09", "C11", "C12"], "kind_free_text": "E2: controlled scheduler + DFS by prefix replay, iterative preemption bounding, 16 worker processes"},
    {"name": "explore-race", "path": "checks/mc/racecheck.go", "serves_properties": ["C16"], "kind_free_text": "E2 in a -race build with detector-invisible scheduler hand-offs"},
+   {"name": "wire", "path": "checks/mc/wire.go", "serves_properties": ["C01"], "kind_free_text": "E4: socket-level driver (in-memory net.Conn with harness-chosen segmentation)"},
    {"name": "c15", "path": "checks/mc/c15.go", "serves_properties": ["C15"], "kind_free_text": "RESP2/RESP3 differential enumeration + HELLO state space"},
    {"name": "scan", "path": "checks/mc/scan.go", "serves_properties": ["C17"], "kind_free_text": "history enumeration for the SCAN family"},
    {"name": "seq", "path": "checks/mc/seq.go", "serves_properties": [i for i in ids if claims.get(i,{}).get('engine')=='seq'], "kind_free_text": "E1: explicit-state BFS over model states, transitions replayed on the implementation (16 worker processes)"},
